@@ -163,6 +163,37 @@ fn respond(line: &str) -> String {
             },
             None => "bad-op".into(),
         },
+        ["cycles", v, ops] => {
+            // REDO_CYCLES is process state: set it to the given value, apply the operations, read it back
+            if *v == "!" {
+                std::env::remove_var("REDO_CYCLES");
+            } else {
+                match dec(v).and_then(|b| String::from_utf8(b).ok()) {
+                    Some(x) => std::env::set_var("REDO_CYCLES", x),
+                    None => return "bad-op".into(),
+                }
+            }
+            let mut out = String::new();
+            if *ops != "-" {
+                for o in ops.split(',') {
+                    let (k, r) = o.split_at(1);
+                    let f = match dec(r).and_then(|b| String::from_utf8(b).ok()) {
+                        Some(f) => f,
+                        None => return "bad-op".into(),
+                    };
+                    match k {
+                        "a" => redo::verif::cycles_add(&f),
+                        "c" => out.push(if redo::verif::cycles_check(&f) { '1' } else { '0' }),
+                        _ => return "bad-op".into(),
+                    }
+                }
+            }
+            let fin = match std::env::var("REDO_CYCLES") {
+                Ok(x) => enc(x.as_bytes()),
+                Err(_) => "!".to_string(),
+            };
+            format!("{} {}", if out.is_empty() { "-" } else { &out }, fin)
+        }
         ["valid-line", x] => match dec(x).and_then(|b| String::from_utf8(b).ok()) {
             Some(x) => redo::verif::is_valid_log_line(&x).to_string(),
             None => "bad-op".into(),
